@@ -1,7 +1,7 @@
 /-
 Property C08, fourth file: deleted jobs never run (over whole histories, either version of the code).
 -/
-import QbVerif.Lemmas.LoopJobs5
+import QbVerif.Lemmas.LoopJobs6
 import QbVerif.Props.C08
 
 namespace QbVerif.Props.C08
@@ -49,5 +49,23 @@ theorem job_gone_never_runs (s : St) (a : Nat) (h : Gone a s) (cmds : List Cmd) 
     a ∉ (s.run cmds).1.dAids ∧ Gone a (s.run cmds).1 := by
   have hg := (gone_stable a).run s cmds (fun c _ => by cases c <;> simp [Cmd.ok]) h
   exact ⟨fun hx => hg.out (by unfold St.allIds; simp [hx]), hg⟩
+
+/-- **deleted_never_runs (jobs).**  In any state reached by any history, if `qb_loop_job_del` returns 0 —
+    whether the job was still on the wait list or had ALREADY been moved to the job list for dispatch — the job
+    it found (allocation `a`, pending before) is neither pending nor dispatched afterwards, and after EVERY
+    continuation (further API calls, callbacks deleting/re-adding anything, any ready sets) `a` does not occur
+    in the log of dispatches: the callback of a successfully deleted job is never invoked.  (`jobDel_gone` holds
+    in every state satisfying the job invariant, i.e. also for a delete issued from inside a callback; the
+    continuation is then the rest of that iteration, covered by the same `Stable` walk.) -/
+theorem deleted_never_runs_job (cfg : Cfg) (cmds1 : List Cmd) (p id : Nat)
+    (hrc : (((St.init cfg).run cmds1).1.jobDel p id).2 = 0) :
+    ∃ a, a ∈ ((St.init cfg).run cmds1).1.allIds ∧ a ∉ (((St.init cfg).run cmds1).1.jobDel p id).1.allIds ∧
+      ∀ cmds2, a ∉ ((((St.init cfg).run cmds1).1.jobDel p id).1.run cmds2).1.dAids := by
+  obtain ⟨a, ha, hg⟩ := jobDel_gone _ (jinv_reachable cfg cmds1) p id hrc
+  exact ⟨a, ha, hg.out, fun cmds2 => (job_gone_never_runs _ a hg cmds2).1⟩
+
+/-- non-vacuity: deleting a job that is already in the job list (moved there by the first iteration) -/
+example : ((((St.init {}).run [.op (.jobAdd 0 7), .iterate []]).1.jobDel 0 7).2 = 0) ∧
+    (((St.init {}).run [.op (.jobAdd 0 7), .iterate []]).1.lo.jobs ≠ []) := by decide
 
 end QbVerif.Props.C08
